@@ -612,6 +612,7 @@ func (p *sqlParser) selectStmt() (*sqlStmt, error) {
 		if s.Table, err = p.ident(); err != nil {
 			return nil, err
 		}
+		p.acceptKw("as") // `FROM tasks AS t1` is `FROM tasks t1`
 		if t := p.peek(); t.kind == "id" && !sqlClauseKw[t.text] {
 			s.Alias = t.text
 			p.next()
